@@ -34,9 +34,16 @@ KINDS = {
     'huge': ['canon', 'cl', 'huge'],          # block longer than the writer's 64 KiB buffer
     'hdr32k': ['pad32768', 'cl', 'text'],     # the largest header block the client accepts
     'hdr32k-1': ['pad32767', 'chunked1', 'binary'],
+    # URLs of 1.2 and 5 KB (hyphens, slashes, encoded spaces: every place a line folder would
+    # break at): each named field of the record header stays one line whatever its length
+    'longurl': ['canon', 'cl', 'text'],
+    'longurl5k': ['lf', 'cl0', 'text'],
 }
+LONG_PATHS = {'longurl': '/l/' + 'seg-ment/' * 130 + 'x?q=' + 'a%20b-c+' * 8,
+              'longurl5k': '/L/' + 'very-long-path_segment.with,punctuation;and=more/' * 100
+              + '?k=' + 'v' * 200}
 ORDER = ['canon', 'lfonly', 'chunked_tr', 'empty', 'binary', 'repeat', 'nospace', 'gzip',
-         'junk', 'bighdr', 'n404', 'embedded', 'bigbody', 'biggz', 'huge', 'hdr32k', 'hdr32k-1']
+         'junk', 'bighdr', 'n404', 'embedded', 'bigbody', 'biggz', 'huge', 'hdr32k', 'hdr32k-1', 'longurl', 'longurl5k']
 BITS = ['compress', 'digests', 'cdx', 'rollover', 'preexisting', 'log', 'extra', 'dedup']
 
 SAME_URL = 'http://h.test/same'
@@ -75,6 +82,7 @@ def case_of(cfg, seq, cuts=(), force_cdx=False):
         p0 = rec_params(dict(cfg, preexisting=False), 0, force_cdx)
         phases.append(dict(rec=p0, items=[KINDS['canon']], cuts=[]))
     paths = {str(i): '/same' for i, k in enumerate(seq) if k == 'repeat'}
+    paths.update({str(i): LONG_PATHS[k] + str(i) for i, k in enumerate(seq) if k in LONG_PATHS})
     phases.append(dict(rec=rec_params(cfg, 1, force_cdx),
                        items=[KINDS[k] for k in seq], cuts=list(cuts), paths=paths))
     return dict(phases=phases)
